@@ -33,6 +33,20 @@ func extraMutants(c *chain.Chain, s *chain.Step, rng *rand.Rand) []chain.Mutant 
 			a.AggregationBits = append(append(phase0.AttestationBits{}, a.AggregationBits...), 0)
 			return true
 		})
+		add("attestation.bits:delimiter-cleared", "ssz.malformed_bitlist", func(b *chain.SignedBlock, body chain.BodyRef) bool {
+			// the delimiter bit removed: no valid SSZ bitlist; when it was the only bit of the last byte ztyp's
+			// BitlistLen still reports the committee size
+			for j := range *body.Attestations {
+				a := &(*body.Attestations)[j]
+				if n := len(a.AggregationBits); n >= 2 && a.AggregationBits[n-1] == 1 {
+					nb := append(phase0.AttestationBits{}, a.AggregationBits...)
+					nb[n-1] = 0
+					a.AggregationBits = nb
+					return true
+				}
+			}
+			return false
+		})
 		add("attestation.bits:only-delimiter", "attestation.bits_length", func(b *chain.SignedBlock, body chain.BodyRef) bool {
 			(*body.Attestations)[i].AggregationBits = phase0.AttestationBits{1}
 			return true
